@@ -386,3 +386,30 @@ def witness(bb: Backbone, ids, lim: dg.Limits, flags: Flags, peptide: str):
         if peptide in backbone_peptides(bb, h, lim, f, must=False):
             return True, ''
     return False, 'peptide is not a digestion product of the backbone carrying exactly the named variants'
+
+
+def circ_lapmix_peptides(bb: Backbone, lim: dg.Limits, flags: Flags, only_ids=None, max_edits=3, laps=4):
+    """Attribution aid (never a verdict by itself): peptides of a circular backbone when every lap may carry its OWN subset of
+    the records - the alleles of one molecule mixed between laps, which no real circular molecule can produce. Used to recognise
+    the known finding 'circRNA laps mix alleles'. Returns None when there are too many records to enumerate."""
+    if not bb.circular:
+        return set()
+    edits = [e for e in bb.edits if only_ids is None or e.ids <= set(only_ids)]
+    if len(edits) > max_edits:
+        return None
+    per_lap = [()] + haplotypes(edits)
+    out = set()
+    for combo in itertools.product(per_lap, repeat=laps):
+        if len(set(combo)) == 1:
+            continue                      # the same alleles in every lap: a real molecule
+        full = ''.join(apply_edits(bb.seq, h)[0] for h in combo)
+        for m in re.finditer('(?=ATG)', full):
+            st = m.start()
+            aa = translate(full[st:])
+            k = aa.find('*')
+            if k != -1:
+                aa = aa[:k]
+            for p, _, _ in dg.digest(aa, lim, nterm_m=True):
+                if dg.ok_peptide(p, lim):
+                    out.add(p)
+    return out
